@@ -136,6 +136,11 @@ def get_hed_version_path(xml_version, library_name=None, local_hed_directory=Non
         local_hed_directory = HED_CACHE_DIRECTORY
 
     hed_versions = get_hed_versions(local_hed_directory, library_name, check_prerelease)
+    if xml_version and (not hed_versions or xml_version not in hed_versions):
+        # The cache may be only partly populated (e.g. an earlier population was interrupted):
+        # complete it from the installed schemas before giving up.
+        cache_local_versions(local_hed_directory)
+        hed_versions = get_hed_versions(local_hed_directory, library_name, check_prerelease)
     if not hed_versions or not xml_version:
         return None
     if xml_version in hed_versions:
